@@ -202,6 +202,11 @@ Print Assumptions run_never_split.
 Theorem one_object_per_stream_partial : forall es, fps_contiguous (map e_fp es) -> NoDup (heads es).
 Proof. exact one_object_per_fingerprint. Qed.
 Print Assumptions one_object_per_stream_partial.
+(* and conversely: no fingerprint gets two objects exactly when equal fingerprints are contiguous *)
+Theorem one_object_per_stream_iff : forall es, NoDup (heads es) <-> fps_contiguous (map e_fp es).
+Proof. exact one_object_iff_contiguous. Qed.
+Print Assumptions one_object_per_stream_iff.
+
 (* the unconditional statement is false: rows of one fingerprint separated by another one give two
    objects (an upstream stage that regroups rows in windows can deliver that) *)
 Theorem one_object_per_stream_refuted : exists es, ~ NoDup (heads es).
